@@ -35,7 +35,7 @@ func setArrayLength(a *arrayObject, l int64) *arrayObject {
 	return a
 }
 
-func arraySpeciesCreate(obj *Object, size int64) *Object {
+func (r *Runtime) arraySpeciesCreate(obj *Object, size int64) *Object {
 	if isArray(obj) {
 		v := obj.self.getStr("constructor", nil)
 		if constructObj, ok := v.(*Object); ok {
@@ -52,10 +52,10 @@ func arraySpeciesCreate(obj *Object, size int64) *Object {
 					return constructor([]Value{intToValue(size)}, constructObj)
 				}
 			}
-			panic(obj.runtime.NewTypeError("Species is not a constructor"))
+			panic(r.NewTypeError("Species is not a constructor"))
 		}
 	}
-	return obj.runtime.newArrayLength(size)
+	return r.newArrayLength(size)
 }
 
 func relToIdx(rel, l int64) int64 {
@@ -327,7 +327,7 @@ func (r *Runtime) arrayproto_concat_append(a *Object, item Value) {
 
 func (r *Runtime) arrayproto_concat(call FunctionCall) Value {
 	obj := call.This.ToObject(r)
-	a := arraySpeciesCreate(obj, 0)
+	a := r.arraySpeciesCreate(obj, 0)
 	r.arrayproto_concat_append(a, call.This.ToObject(r))
 	for _, item := range call.Arguments {
 		r.arrayproto_concat_append(a, item)
@@ -352,7 +352,7 @@ func (r *Runtime) arrayproto_slice(call FunctionCall) Value {
 		count = 0
 	}
 
-	a := arraySpeciesCreate(o, count)
+	a := r.arraySpeciesCreate(o, count)
 	if src := r.checkStdArrayObj(o); src != nil {
 		if dst := r.checkStdArrayObjWithProto(a); dst != nil {
 			values := make([]Value, count)
@@ -460,7 +460,7 @@ func (r *Runtime) arrayproto_splice(call FunctionCall) Value {
 	if newLength >= maxInt {
 		panic(r.NewTypeError("Invalid array length"))
 	}
-	a := arraySpeciesCreate(o, actualDeleteCount)
+	a := r.arraySpeciesCreate(o, actualDeleteCount)
 	if src := r.checkStdArrayObj(o); src != nil {
 		if dst := r.checkStdArrayObjWithProto(a); dst != nil {
 			values := make([]Value, actualDeleteCount)
@@ -800,7 +800,7 @@ func (r *Runtime) arrayproto_map(call FunctionCall) Value {
 		This:      call.Argument(1),
 		Arguments: []Value{nil, nil, o},
 	}
-	a := arraySpeciesCreate(o, length)
+	a := r.arraySpeciesCreate(o, length)
 	if _, stdSrc := o.self.(*arrayObject); stdSrc {
 		if arr, ok := a.self.(*arrayObject); ok {
 			values := make([]Value, length)
@@ -832,7 +832,7 @@ func (r *Runtime) arrayproto_filter(call FunctionCall) Value {
 	length := toLength(o.self.getStr("length", nil))
 	callbackFn := call.Argument(0).ToObject(r)
 	if callbackFn, ok := callbackFn.self.assertCallable(); ok {
-		a := arraySpeciesCreate(o, 0)
+		a := r.arraySpeciesCreate(o, 0)
 		fc := FunctionCall{
 			This:      call.Argument(1),
 			Arguments: []Value{nil, nil, o},
@@ -1212,7 +1212,7 @@ func (r *Runtime) arrayproto_flat(call FunctionCall) Value {
 	if len(call.Arguments) > 0 {
 		depthNum = call.Argument(0).ToInteger()
 	}
-	a := arraySpeciesCreate(o, 0)
+	a := r.arraySpeciesCreate(o, 0)
 	r.flattenIntoArray(a, o, l, 0, depthNum, nil, nil)
 	return a
 }
@@ -1259,7 +1259,7 @@ func (r *Runtime) arrayproto_flatMap(call FunctionCall) Value {
 	if len(call.Arguments) > 1 {
 		thisArg = call.Argument(1)
 	}
-	a := arraySpeciesCreate(o, 0)
+	a := r.arraySpeciesCreate(o, 0)
 	r.flattenIntoArray(a, o, l, 0, 1, callbackFn, thisArg)
 	return a
 }
